@@ -441,3 +441,10 @@ func C20_UpdateDecimalPrice() {
 func C03_Genesis() { focus = "C03"; sceneGenesis(gnQuick) }
 func C04_Genesis() { focus = "C04"; sceneGenesis(gnQuick) }
 func C14_Genesis() { focus = "C14"; sceneGenesis(gnQuick) }
+
+// C04: a provider is slashed when ITS request times out - which rests on the expiry entry belonging to the batch
+// in flight and on the batch bookkeeping, both of which the context messages must leave alone
+func C04_Pause()     { focus = "C04"; sceneCtxMsg(opPause, cmOne) }
+func C04_Start()     { focus = "C04"; sceneCtxMsg(opStart, cmOne) }
+func C04_Kill()      { focus = "C04"; sceneCtxMsg(opKill, cmOne) }
+func C04_UpdateCtx() { focus = "C04"; sceneCtxMsg(opUpdate, cmOne) }
